@@ -70,7 +70,7 @@ func amtoolVerifyPart(t *testing.T, run *vh.Run, env vh.Env) {
 			var args []string
 			ok := len(ls) > 0
 			for k, v := range ls {
-				if v == "" || strings.ContainsAny(k+v, " ,\"=\\{}") {
+				if v == "" || strings.ContainsAny(k+v, " ,\"=\\{}") || !plainASCII(k+v) {
 					ok = false
 				}
 				args = append(args, k+"="+v)
@@ -168,4 +168,13 @@ func contains(xs []string, x string) bool {
 		}
 	}
 	return false
+}
+
+func plainASCII(s string) bool {
+	for i := 0; i < len(s); i++ {
+		if s[i] < 0x21 || s[i] > 0x7e {
+			return false
+		}
+	}
+	return true
 }
